@@ -149,6 +149,61 @@ class SeededInterleavingPool:
         return results
 
 
+class LostUpdatePool:
+    """The diagnostic counters (`ccube.intersection_data_points`, the buckets of `xcube._tracing`) are updated by the worker
+    tasks with an unlocked read-modify-write, so under some schedules an update is LOST: task A reads a counter, task B runs
+    to completion, A writes back what it read plus its own share.  This pool reaches exactly that end state
+    deterministically: tasks run one after the other, and the diagnostics are put back to what they were before the second
+    task (B) once B has finished.  Regions are untouched.  The property exempts the counters themselves; what it does not
+    exempt is a RESULT (or an exception) that depends on them."""
+
+    def __init__(self, cube):
+        self.cube = cube
+        self.lost = 0
+
+    def __call__(self, poolsize):
+        self._running = True
+        return self
+
+    def close(self):
+        self._running = False
+
+    def terminate(self):
+        self._running = False
+
+    def join(self):
+        pass
+
+    def _snapshot(self):
+        c = self.cube
+        return (getattr(c, "intersection_data_points", None),
+                {k: dict(v) for k, v in getattr(c, "_tracing", {}).items()} if isinstance(getattr(c, "_tracing", None), dict) else None)
+
+    def _restore(self, snap):
+        c = self.cube
+        if snap[0] is not None and hasattr(c, "intersection_data_points"):
+            c.intersection_data_points = snap[0]
+        if snap[1] is not None and isinstance(getattr(c, "_tracing", None), dict):
+            for k, v in snap[1].items():
+                if k in c._tracing and isinstance(c._tracing[k], dict):
+                    c._tracing[k].update(v)
+        self.lost += 1
+
+    def map(self, func, iterable, chunksize=None):
+        if not getattr(self, "_running", True):
+            raise ValueError("Pool not running")
+        items = list(iterable)
+        if not _stdlib_chunks(len(items), chunksize):
+            return [None] * len(items)
+        out = []
+        for i, x in enumerate(items):
+            snap = self._snapshot() if i == 1 else None
+            out.append(func(x))
+            if snap is not None:
+                self._restore(snap)
+        return out
+
+
 @contextlib.contextmanager
 def ccube_pool(pool):
     """ccube hard-codes multiprocessing.pool.ThreadPool; substitute it for the duration of a call"""
